@@ -92,10 +92,16 @@ impl<T> MemoryStore<T> {
         address: &Multiaddr,
         is_permanent: bool,
     ) -> bool {
+        if !self.records.contains_key(peer) {
+            // `LruCache::insert` evicts the least recently used peer when the store is full;
+            // `LruCache::entry` does not and would let the store grow to `peer_capacity + 1`.
+            self.records
+                .insert(*peer, PeerRecord::new(self.config.record_capacity));
+        }
         let record = self
             .records
-            .entry(*peer)
-            .or_insert_with(|| PeerRecord::new(self.config.record_capacity));
+            .get_mut(peer)
+            .expect("record to be present after insertion");
         let is_new = record.add_address(address, is_permanent);
         if is_new {
             self.push_event_and_wake(Event::PeerAddressAdded {
